@@ -420,3 +420,141 @@ Proof.
   intros Lb. unfold prod_st. rewrite np_proj_full by (rewrite !app_length; simpl; lia).
   rewrite map2_app by auto. rewrite aproj_long by lia. reflexivity.
 Qed.
+
+(* ------------------------------------------------------------------ in-place matmul branch *)
+Lemma align_r_short n idx : length idx <= n -> align_r n idx = repeat 0 (n - length idx) ++ idx.
+Proof. intros H. unfold align_r. replace (length idx - n) with 0 by lia. reflexivity. Qed.
+
+(* The in-place branch reads the operator element of the index SHIFTED by one axis:
+   operator axis j+1 is matched with state axis j (right-aligned, the phase-state axis being
+   consumed as a core dimension of matmul) *)
+Lemma mp_inplace_op_spec A B bidx : length A <= length B -> length bidx = length B ->
+  mp_inplace_op A B bidx = aproj A (0 :: bidx).
+Proof.
+  intros L Lb. unfold mp_inplace_op, np_proj. rewrite ins_length by auto.
+  rewrite align_r_short by lia. replace (S (length B) - length bidx) with 1 by lia. simpl repeat. simpl app.
+  rewrite firstn_map2. unfold ins. rewrite firstn_app, Nat.sub_diag, firstn_all. simpl firstn at 2. rewrite app_nil_r.
+  rewrite map2_firstn_r. rewrite aproj_long by (simpl; lia). reflexivity.
+Qed.
+
+Lemma np_bdim_to a b : np_bdim a b = Some b <-> (a = 1 \/ a = b).
+Proof.
+  unfold np_bdim, bc_dim. destruct (Nat.eqb_spec a b), (Nat.eqb_spec a 1), (Nat.eqb_spec b a), (Nat.eqb_spec b 1);
+    simpl; split; intros H; auto; try (inversion H; subst; auto; fail); try (destruct H; congruence).
+Qed.
+
+Lemma seq_map2_to X B : length X = length B ->
+  (sequence (map2 np_bdim X B) = Some B <-> dom X B).
+Proof.
+  revert B. induction X as [|x X IH]; intros [|b B] L; simpl in *; try discriminate.
+  - tauto.
+  - specialize (IH B ltac:(lia)). split.
+    + intros H. destruct (np_bdim x b) eqn:E; try discriminate.
+      destruct (sequence (map2 np_bdim X B)) eqn:Q; try discriminate. inversion H; subst.
+      split; [now apply np_bdim_to | now apply IH].
+    + intros [H1 H2]. apply np_bdim_to in H1. rewrite H1. apply IH in H2. now rewrite H2.
+Qed.
+
+Lemma dom_pad_app n A B : length A <= n -> length B = n -> (dom (pad_app n A) B <-> dom A B).
+Proof.
+  intros L1 L2. unfold pad_app. split; [apply dom_app_l|].
+  subst n. revert B L1. induction A as [|a A IH]; intros B L1 H; simpl in *.
+  - rewrite Nat.sub_0_r. clear. induction B; simpl; auto.
+  - destruct B as [|b B]; simpl in *; [lia|]. destruct H. split; auto. apply IH; auto. lia.
+Qed.
+
+(* exactly when numpy accepts the in-place matmul (no ValueError):
+   the FIRST operator axis is a singleton and operator axis j+1 fits state axis j *)
+Theorem mp_inplace_spec a A B : length (a :: A) <= length B ->
+  (mp_inplace_ok (a :: A) B = true <-> a = 1 /\ dom A B).
+Proof.
+  intros L. unfold mp_inplace_ok, np_bshape.
+  assert (E1 : length (ins (a :: A) B) = S (length B)) by (now apply ins_length).
+  rewrite E1. replace (Nat.max (S (length B)) (length B)) with (S (length B)) by lia.
+  rewrite pad_pre_id by auto.
+  assert (E2 : pad_pre (S (length B)) B = 1 :: B).
+  { unfold pad_pre. replace (S (length B) - length B) with 1 by lia. reflexivity. }
+  rewrite E2. rewrite ins_le by auto.
+  assert (E3 : pad_app (length B) (a :: A) ++ [1] = a :: pad_app (length B) A).
+  { unfold pad_app. simpl in *. f_equal. rewrite <- app_assoc. f_equal.
+    replace (length B - length A) with (S (length B - S (length A))) by lia. now rewrite repeat_snoc. }
+  rewrite E3. simpl map2. simpl sequence. rewrite np_bdim_1_r.
+  simpl in L.
+  assert (LP : length (pad_app (length B) A) = length B) by (apply pad_app_length; lia).
+  destruct (sequence (map2 np_bdim (pad_app (length B) A) B)) as [r|] eqn:Q.
+  - pose proof (seq_map2_dom _ _ _ LP Q) as (_ & _ & Lr).
+    unfold np_out_ok. simpl length. rewrite Lr. replace (S (length B) - length B) with 1 by lia. simpl repeat. simpl app.
+    destruct (Nat.leb_spec (length B) (S (length B))); [|lia]. simpl andb.
+    rewrite shape_eqb_eq. split.
+    + intros H. inversion H; subst. split; auto.
+      apply (dom_pad_app (length B)); auto; try lia. apply seq_map2_to; auto.
+    + intros [-> D]. f_equal. apply (dom_pad_app (length B)) in D; auto; try lia.
+      apply seq_map2_to in D; auto. congruence.
+  - split; [discriminate|]. intros [-> D]. apply (dom_pad_app (length B)) in D; auto; try lia.
+    apply seq_map2_to in D; auto. congruence.
+Qed.
+
+Lemma all_ones_map2 A x y : all_ones A = true -> length A <= length x -> length A <= length y ->
+  map2 sel A x = map2 sel A y.
+Proof.
+  revert x y. induction A as [|a A IH]; intros [|i x] [|j y] H Lx Ly; simpl in *; auto; try lia.
+  apply andb_true_iff in H as [H1 H2]. apply Nat.eqb_eq in H1. subst a. f_equal. apply IH; auto; lia.
+Qed.
+
+Lemma all_ones_dom A B : all_ones A = true -> length A <= length B -> dom A B.
+Proof.
+  revert B. induction A as [|a A IH]; intros [|b B] H L; simpl in *; auto; try lia.
+  apply andb_true_iff in H as [H1 H2]. apply Nat.eqb_eq in H1. split; auto. apply IH; auto. lia.
+Qed.
+
+(* When accepted, the in-place result is the append-aligned one for every index of the state
+   iff the operator is unbatched (all axes singleton).  Otherwise an index exists where the
+   coefficient of ANOTHER grid point is applied, silently. *)
+Theorem mp_inplace_correct_iff a A B :
+  length (a :: A) <= length B -> pos B -> mp_inplace_ok (a :: A) B = true ->
+  ((forall bidx, valid B bidx -> mp_inplace_op (a :: A) B bidx = aproj (a :: A) bidx)
+   <-> all_ones (a :: A) = true).
+Proof.
+  intros L P OK. apply mp_inplace_spec in OK as [-> D]; auto. split.
+  - intros H. simpl. clear L.
+    (* find the first non-singleton axis and an index that separates the two projections *)
+    assert (G : forall A B, dom A B -> pos B ->
+      (forall bidx, valid B bidx -> map2 sel A (0 :: bidx) = map2 sel A bidx ++ []) -> False \/ all_ones A = true).
+    { clear. intros A B D P H. right. revert B D P H.
+      induction A as [|x A IH]; intros [|b B] D P H; simpl in *; auto; try tauto.
+      destruct D as [D1 D2]. inversion P; subst.
+      destruct (Nat.eqb_spec 1 x) as [<-|N]; simpl.
+      - apply (IH B); auto. intros bidx V.
+        specialize (H (0 :: bidx)). simpl in H. rewrite app_nil_r in *.
+        assert (V' : valid (b :: B) (0 :: bidx)) by (constructor; auto; lia).
+        specialize (H V'). inversion H. rewrite H1. reflexivity.
+      - exfalso. destruct D1 as [|D1]; [congruence|]. subst x.
+        (* index 1 on this axis, 0 elsewhere *)
+        assert (Z : exists z, valid B z).
+        { clear -H3. induction B; [exists []; constructor|]. inversion H3; subst.
+          destruct (IHB H2) as [z Hz]. exists (0 :: z). constructor; auto; lia. }
+        destruct Z as [z Hz]. specialize (H (1 :: z)).
+        assert (V' : valid (b :: B) (1 :: z)) by (constructor; auto; lia).
+        specialize (H V'). simpl in H. inversion H. unfold sel in H1.
+        destruct (Nat.eqb_spec b 1); [congruence|discriminate]. }
+    destruct (G A B D P) as [[]|G']; auto.
+    intros bidx V. specialize (H bidx V). pose proof (valid_length _ _ V).
+    rewrite mp_inplace_op_spec in H by (simpl in *; lia).
+    rewrite !aproj_long in H by (simpl in *; lia). simpl in H. inversion H. rewrite app_nil_r. reflexivity.
+  - intros H bidx V. pose proof (valid_length _ _ V).
+    rewrite mp_inplace_op_spec by (simpl in *; lia).
+    rewrite !aproj_long by (simpl in *; lia). apply all_ones_map2; auto; simpl in *; lia.
+Qed.
+
+(* the witness of DESIGN 9.14: a (1,2) matrix operator on a (2,2) state is accepted in place and
+   reads operator element (0,1) at state index (1,0) where append semantics demands (0,0) *)
+Lemma matrix_prod_inplace_refuted :
+  exists A B bidx, broadcastable true [B; A] = true /\ length A <= length B /\
+    mp_inplace_ok A B = true /\ mp_inplace_op A B bidx <> aproj A bidx.
+Proof. exists [1; 2], [2; 2], [1; 0]. vm_compute. repeat split; auto. discriminate. Qed.
+
+(* out of reach of prepare (|A| > |B|): the element-wise product is then right-aligned *)
+Lemma prod_low_rank_refuted :
+  exists A B ns idx, broadcastable true [B; A] = true /\ length B < length A /\
+    prod_shape A B ns <> None /\ removelast (prod_st B ns (idx ++ [0])) <> aproj B idx.
+Proof. exists [2; 2], [2], 1, [0; 1]. vm_compute. repeat split; auto; discriminate. Qed.
